@@ -70,6 +70,33 @@ func (tr *Tr) stdModel(fr *Frame, site ssa.Instruction, c *ssa.CallCommon, sf *s
 			return Val{t}, true
 		}
 	}
+	if strings.HasSuffix(name, "/partition/gpt.reverseSlice") && len(args) == 1 {
+		// reflect-based in-place reversal of a slice passed as interface{}: modelled natively (trusted; reflect is outside the subset)
+		tr.trust("gpt.reverseSlice (reflect.Swapper): reverses the slice in place")
+		mi, ok := c.Args[0].(*ssa.MakeInterface)
+		if ok && isSlice(mi.X.Type()) {
+			sl := tr.val(mi.X)
+			et := elemType(mi.X.Type())
+			keys := keysOfType(et)
+			m := int64(nleaves(et))
+			n := tr.constOf(sl[2])
+			if n != nil && n.Val.IsInt64() && n.Val.Int64() <= 64 && m == 1 {
+				k := n.Val.Int64()
+				for _, key := range keys {
+					old := tr.inner(fr.st, key, sl[0])
+					d := old
+					for i := int64(0); i < k; i++ {
+						d = f.Store(d, f.AddC(sl[1], i), f.Select(old, f.AddC(sl[1], k-1-i)))
+					}
+					tr.setInner(fr.st, key, sl[0], d)
+				}
+				return nil, true
+			}
+			tr.havocRegionKeys(fr.st, sl[0], keys)
+			tr.note("reverseSlice on a slice of unknown length (region havocked)")
+			return nil, true
+		}
+	}
 	switch name {
 	case "bytes.Equal":
 		a, b := args[0], args[1]
